@@ -140,6 +140,13 @@ Ghost(g, r, resp, P) ==
   [pay |-> IF r.op \in PayOps /\ resp.ok THEN Credit(gp, r.a) ELSE gp,
    fee |-> IF r.op \in FeeOps /\ resp.ok THEN Credit(gf, r.a) ELSE gf]
 
+\* one monitor at a time: the history of the control that is not monitored is not kept (on a
+\* broken implementation it could grow without bound and the product would never be exhausted)
+GhostFor(mon, g, r, resp, P) ==
+  LET n == Ghost(g, r, resp, P) IN
+  [pay |-> IF mon = "fee" THEN g.pay ELSE n.pay,
+   fee |-> IF mon = "pay" THEN g.fee ELSE n.fee]
+
 RECURSIVE CapSum(_, _, _)
 CapSum(h, i, j) == IF i > j THEN 0 ELSE CapAdd(CapSum(h, i + 1, j), h[i])
 
